@@ -56,7 +56,7 @@ CLAIMS = {
           'every cached attribute (labels, raw slices, slices, areas, nlabels, max_label) equals the attribute derived from the current array, i.e. what a fresh object computes (history_inv, history_reads_fresh). '
           'The inductive step is discharged against the mutator table extracted from the source on every run (Gen/SegmTable.lean: does the mutator call _reset_lazyproperties before replacing _data, which __dict__ entries it re-seeds): '
           'commit_reassign_inv, commit_setter_inv, commit_relabel_inv are the table obligations - the last needs relabel_labels (consecutive renumbering yields labels start..start+N-1, no gaps) and relabel_slices (old slices stay valid). '
-          'Also proved: labels recovered from cached _raw_slices are the labels (labelsFromRaw_dRaw), a zero border width changes nothing (removeBorder_zero_noop), every label mutator keeps the deblended-label map naming only present labels '
+          'Also proved: after ANY successful mutator called with relabel=True (or relabel_consecutive()) the labels of the array are exactly 1..N, whatever was cached and whether or not the call had anything to remove (Props/C05Relabel.lean: step_relabel_consecutive - the clause defect F38 violated); labels recovered from cached _raw_slices are the labels (labelsFromRaw_dRaw), a zero border width changes nothing (removeBorder_zero_noop), every label mutator keeps the deblended-label map naming only present labels '
           '(mutators_keep_dmap_sound) and data assignment resets it (setData_dmap). The data effect of the mutators is code-shaped in the model and tied by correspondence (random histories incl. invalid arguments, 4 dtypes, objects from the constructor, detect_sources and deblend_sources; '
           'label array and deblend map compared after every step) plus a fresh-object oracle on every public derived attribute. [partial] dtype range preservation and polygon geometry are checked on the implementation only.',
   'note': 'Trusted: Lean kernel + standard axioms; table extractor tools/extract_tables.py; hand model Model/Segm.lean tied by differential testing; reading of the statement about deblend maps as in DESIGN §5 C05. Known finding F2b (non-connected label: polygons per region).',
@@ -100,6 +100,7 @@ CLAIMS = {
   'text': 'Proved in Lean: for every per-source property, every index form (int incl. negative, slice with step, int list with repeats/negatives, bool mask) and every set of properties cached before slicing, cat[idx].p = cat.p[idx] '
           '(getitem_commutes, sel_map) - given that per-source properties are maps over the labels (C07 row-order freedom); the slice receives its own extras list so that add/remove on either side never shows on the other '
           '(getitem_fresh_extras, slice_extras_independent - table obligations discharged against Gen/CatSliceTable.lean, regenerated from __getitem__ every run); no attribute copied by reference is modified in place by any method of SourceCatalog or ApertureStats (no_shared_mutable_attribute, by decide on the extracted table). '
+          'get_label(s)/get_id(s) are modelled as labelPositions: refused for a label the (possibly sliced, possibly reordered) catalogue does not hold (labelPositions_absent - defect F45), otherwise exactly the requested sources in request order (labelPositions_sound) and an instance of the integer-list index form (labelPositions_is_ints), so the commutation theorem covers them. ' \
           '[partial] the scalar (as_scalar) shapes and the private length-1 rule are checked on the implementation only. Tie + search: every public property (82 of SourceCatalog, 49 of ApertureStats, enumerated at run time) x 6 index forms x {evaluated before/after indexing} compared on real catalogues; '
           'selected positions compared with the Lean index model; parent/child interference histories (add/rename/remove extra property, circular/kron photometry, to_table).',
   'note': 'Trusted: Lean kernel + standard axioms; AST extractor of init_attr / in-place mutations; documented exceptions: `labels`/`ids` are always iterable.',
@@ -121,6 +122,7 @@ CLAIMS = {
           'with the padding value not above any pixel - the minimum of the data, as the code now uses - pixels outside the image never decide, so negative maxima on the edge are found (edge_peaks_with_min_padding); a zero border width excludes nothing (border_zero_noop); '
           'npeaks keeps min(n, #candidates) candidates, each at least as high as every dropped one, in decreasing order (topN_sub, topN_length, topN_dominates, over a total order on finite/infinite values); None iff no candidate (findPeaks_none_iff); '
           'star finders: the returned rows are exactly the raw-catalogue rows that are finite and within the inclusive bounds, None iff none passes, brightest=N returns at most N (selectStars_spec, passes_iff, brightest_keeps_largest). '
+          'the min_separation neighbourhood (sepOffsets: integer offsets with dy^2 + dx^2 <= sep^2) contains exactly the offsets within the separation, is symmetric under mirroring either axis and swapping the axes, and contains the pixel itself (mem_sepOffsets, sepOffsets_symmetric, sepOffsets_centre - defect F50: it was off-centre for non-integer separations); the footprint the finders hand to find_peaks is captured at run time and compared with this model. ' \
           'Tie: find_peaks on dyadic images (ties, plateaus, NaN/inf, negative regions, constant images; odd/even/rectangular boxes, random footprints, border widths incl. 0/asymmetric, masks, scalar/2-D thresholds, npeaks) compared with the model pixel-for-pixel and with a brute-force evaluation of the contract; '
           'DAOStarFinder/IRAFStarFinder raw catalogues pushed through the Lean selection model and compared with find_stars. [partial] sharpness/roundness/marginal-fit numerics and the centroid-within-kernel clause are not modelled; StarFinder is probed only.',
   'note': 'Trusted: Lean kernel + standard axioms; hand model tied by differential testing; order among exactly tied values at the npeaks cut is unspecified (numpy argsort) and compared as a multiset.',
